@@ -91,7 +91,7 @@ func (g *gen) transfersTable() []wop {
 	return []wop{
 		{24, g.opTransfer}, {24, g.opNFTTransfer}, {30, g.opMulti},
 		{14, g.lateNetwork}, {3, g.opPayableFlip}, {2, g.opAlias},
-		{2, g.opMint}, {2, g.opCreate}, {1, g.opAddQty}, {3, g.opSysTransfer}, {3, g.opPayableMatrix}, {2, g.opThinSecondLeg}, {2, g.opHandOverFresh},
+		{2, g.opMint}, {2, g.opCreate}, {1, g.opAddQty}, {3, g.opSysTransfer}, {3, g.opPayableMatrix}, {2, g.opThinSecondLeg}, {2, g.opHandOverFresh}, {3, g.opUnfrozenDrain},
 	}
 }
 
@@ -154,7 +154,7 @@ func (g *gen) runSupply() {
 	opJump()
 	g.loop([]wop{
 		{1, opJump}, {16, g.opMint}, {14, g.opLocalBurn}, {12, g.opESDTBurn}, {12, g.opCreate}, {14, g.opAddQty}, {14, g.opNFTBurn},
-		{5, g.opFreezeThenWipe}, {4, g.opTransfer}, {4, g.opNFTTransfer}, {3, g.opMulti}, {4, g.lateNetwork}, {2, g.opAlias},
+		{5, g.opFreezeThenWipe}, {4, g.opTransfer}, {4, g.opNFTTransfer}, {3, g.opMulti}, {4, g.lateNetwork}, {2, g.opAlias}, {3, g.opUnfrozenDrain},
 	})
 }
 
@@ -206,7 +206,7 @@ func (g *gen) runGates() {
 		{14, g.opFreezeToggle}, {9, g.opPauseToggle},
 		{10, g.opTransfer}, {10, g.opNFTTransfer}, {12, g.opMulti}, {5, g.opMint}, {5, g.opLocalBurn}, {4, g.opESDTBurn},
 		{4, g.opCreate}, {4, g.opAddQty}, {4, g.opNFTBurn}, {2, g.opAddURI}, {2, g.opUpdateAttr},
-		{6, g.opFullQuantity}, {4, g.opRAE}, {12, g.lateNetwork}, {1, g.opPayableFlip}, {3, g.opSysTransfer},
+		{6, g.opFullQuantity}, {4, g.opRAE}, {12, g.lateNetwork}, {1, g.opPayableFlip}, {3, g.opSysTransfer}, {3, g.opUnfrozenDrain},
 	})
 }
 
@@ -1206,6 +1206,6 @@ func (g *gen) runDeterminism() {
 	g.loop([]wop{
 		{12, g.opTransfer}, {12, g.opNFTTransfer}, {16, g.opMulti}, {8, g.opMint}, {6, g.opLocalBurn}, {5, g.opESDTBurn},
 		{8, g.opCreate}, {6, g.opAddQty}, {6, g.opNFTBurn}, {3, g.opAddURI}, {3, g.opUpdateAttr}, {3, g.opFreezeThenWipe},
-		{4, g.opSKV}, {3, g.opAnyFunction}, {10, g.lateNetwork}, {2, g.opPayableFlip}, {4, opRoleChurn}, {1, opHandOver}, {3, g.opFrozenZeroCredit},
+		{4, g.opSKV}, {3, g.opAnyFunction}, {10, g.lateNetwork}, {2, g.opPayableFlip}, {4, opRoleChurn}, {1, opHandOver}, {3, g.opFrozenZeroCredit}, {4, g.opPauseToggle}, {2, g.opFreezeToggle},
 	})
 }
